@@ -68,6 +68,14 @@ func init() {
 			e.setDec(v[0], d)
 			e[v[0]+"err"] = errClass(err)
 		}
+		// the 'e' and 'f' texts of precision -1 are interchange forms too: each is read back through the three routes
+		for _, t := range [][2]string{{"e", string(e.bytes("e1"))}, {"f", string(e.bytes("f1"))}} {
+			for _, v := range [][2]string{{"bp", "Parse"}, {"bu", "UnmarshalText"}, {"bs", "Sscan"}} {
+				d, err := parseVia(v[1], t[1], d128.Decimal{})
+				e.setDec(v[0]+t[0], d)
+				e[v[0]+t[0]+"err"] = errClass(err)
+			}
+		}
 		// the string returned earlier must not change when further calls are made
 		e["stable"] = string(e.bytes("s")) == s
 	}
